@@ -102,6 +102,9 @@ def run_pyvc_check(prop, tier, seed, ptasks, assumptions, checker_cmd, extra_cov
             n_dis += 1
             continue
         if n["invalid"] > 0:
+            if "/cover:" in name:
+                res.errors.append("%s: the assumptions of this harness are contradictory (vacuous contract)" % name)
+                continue
             if MODEL_LIMIT.search(name):
                 res.undecided.append("%s: outside the integer/index model (counter-model %s)" % (name, n["models"][0]))
                 continue
